@@ -473,3 +473,19 @@ def run(index, rep, tier):
                 else:
                     rep.ob("R12.9", fn_where(f, c), "%s: super().%s" % (f.name, m_), True)
         rep.floor("R12.9", "accesses to the folded layer", 10, n9)
+
+    # ---- R12.10 annotations are copied INTO the copy
+    with rep.section("R12.10"):
+        rep.rule("R12.10", "annotations are copied into the copy: inside a copy hook or copy helper (__copy__, __deepcopy__, clone, _clone_from, taxon_namespace_scoped_copy) a call `<a>.copy_annotations_from(<b>)` / `deep_copy_annotations_from` has the receiver `self` as its argument and the new object as its target - with the two swapped the source gains copies of the (empty) copy's annotations and the copy gets none")
+        n10 = 0
+        for m in PROP_MODULES["C12"]:
+            for fi in index.functions_in_module(m):
+                if fi.name not in ("__copy__", "__deepcopy__", "clone", "taxon_namespace_scoped_copy"):
+                    continue
+                for c in calls_in(fi.node):
+                    if call_name(c) in ("copy_annotations_from", "deep_copy_annotations_from") and isinstance(c.func, ast.Attribute) and c.args:
+                        n10 += 1
+                        ok = norm(c.args[0]) == "self" and norm(c.func.value) != "self"
+                        rep.check(ok, "R12.10", fi.qualname, "annotations copied from the copy into the source", fn_where(fi, c), "%s: %s" % (fi.name, norm(c)[:60]),
+                                  "%s calls `%s`: in a copy hook the receiver `self` is the SOURCE, so this copies the new object's (still empty) annotations into the source and leaves the copy without the source's annotations" % (fi.qualname, norm(c)[:70]))
+        rep.floor("R12.10", "annotation copies in copy hooks", 4, n10)
